@@ -348,7 +348,7 @@ CHECKS["C13"] = {
     "engine": "seqx", "design_ref": "DESIGN.md section 3 C13",
     "technique": "explicit-state BFS to closure over start/stop/restart/set_status/blocker alloc+free/dispatch/free on a pump of a mock event loop built on the real upump_common.c, vs a 3-variable reference automaton; conformance replay on real upump_ev/libev",
     "level_text": "The full reachable state space (closure, no depth bound) of one pump with up to 3 blockers, for idler / timer / descriptor pumps and 5 callback behaviours (nothing, stop itself, block itself, free itself, start again): after every call the back-end's active flag must equal started && no blocker && !freed, back-end calls must be well-formed (no start while active, no stop while inactive, matching status), freeing must notify every outstanding blocker exactly once, callbacks only from dispatch. The same alphabet is replayed on a real upump_ev idler with ev_run(EVRUN_NOWAIT) and what libev invokes is compared with the automaton.",
-    "level_note": "Blocker callbacks follow upipe_helper_input's contract (unlink + free). upump_restart is used on timer pumps only (as documented). One-shot timer expiry inside libev is not modelled by the mock.",
+    "level_note": "Operation blocker_alloc(memory-refused): upump_common.c is compiled with -Dmalloc=vf_malloc and its memory request is refused during that call; a blocker that could not be allocated does not exist, the pump stays as active as it was. Blocker callbacks follow upipe_helper_input's contract (unlink + free). upump_restart is used on timer pumps only (as documented). One-shot timer expiry inside libev is not modelled by the mock.",
     "jobs": {"quick": _c13_jobs("quick"), "thorough": _c13_jobs("thorough")},
     "rule": "BFS to closure, key = automaton variables + upump_common fields + back-end flags; non-trivial = states with a blocker held or the pump freed",
     "bounds": {"quick": "closure (no depth bound): 3 pump types x 5 callback behaviours on the mock back-end, 4 behaviours on real libev; <= 3 blockers",
